@@ -395,11 +395,12 @@ fn eval_chunk(fun: Fun, isas: &[IsaKind], bits: &[u32], bufs: &mut ChunkBufs, st
 
 /// Arguments previously observed as worst cases on this host (kept in the
 /// quick sample so that both tiers see them).
-const POINTS_OF_INTEREST: [u32; 6] = [
+const POINTS_OF_INTEREST: [u32; 7] = [
     0x3ef2_414f, // 0.47315452: tanh 4 ULP vs glibc tanhf (2 ULP vs f64), DESIGN C19
     0xc733_2eea, // -45870.914: sin, DESIGN C19
     0x4732_d0ad, // 45776.676: worst sin argument under AVX2 / AVX-512 (exhaustive sweep)
-    0x4719_bb09, // 39355.035: worst sin argument under the generic ISA
+    0x4718_4209, // 38978.035: worst sin argument under the generic ISA (vs the f64 reference)
+    0x4719_bb09, // 39355.035: worst sin argument under the generic ISA (vs the f32 reference)
     0xc730_4df6, // -45133.96: worst cos argument under the generic ISA
     0x3d1b_8342, // 0.037966974: worst erf argument (generic ISA, exactly at the bound)
 ];
